@@ -382,10 +382,6 @@ Proof. vm_compute. repeat split; reflexivity. Qed.
    lands in the superseded file) - until goroutine 0 links and redoes the
    invalidate.  Both flags clear: the run is inside the envelope of the multi
    theorems, which do not speak about closed mappings. *)
-Definition regwin_init : mstate :=
-  (mkMS [mkC 0 None [0] 0 false None] (Some 0%nat) [0%nat] [] false false 1 [] [false] false false,
-   [adderM 1 0 1; adderM 1 0 2; changerM 1 NewFile; adderM 1 0 4]).
-Definition regwin_sched : list nat := ([0;0;0;0] ++ repeat 1 20 ++ repeat 2 30 ++ repeat 3 20 ++ repeat 0 40)%nat.
 Theorem C03_multi_entry_through_closed_mapping_refuted :
   let st := mrun regwin_sched regwin_init in
   m_all_done (snd st) = true /\ mflags (fst st) = (false, false) /\
